@@ -265,6 +265,14 @@ def check_one(ctx, binary, index):
             ctx.inconclusive_because("no output from frontdump load")
             return
         o = out[0]
+        # the same request repeated on the same loader object
+        shape = [("error", x["msg"]) if "error" in x else ("ok", x.get("classes"), x.get("functions"))
+                 for x in out if "error" in x or "classes" in x]
+        ctx.count("loader_reuse_compared")
+        if len(shape) >= 2 and shape[0] != shape[1]:
+            ctx.violation("load:reuse:%s-then-%s" % (shape[0][0], shape[1][0]),
+                          "the same loader answered the same request differently the second time: %r then %r" %
+                          (shape[0], shape[1]), dict(index=index))
         if "error" in o:
             got = ("error", kind_of_error(o["msg"]))
             ctx.count("diag_" + got[1])
